@@ -47,3 +47,13 @@ package lazyproto
 //@   requires r == nil || flatOK(r)
 //@   ensures  implies(err == nil, fd != nil && len(fd.data) > 0)
 //@   ensures  implies(err != nil, fd == nil)
+
+//@ import csproto "github.com/CrowdStrike/csproto"
+
+// decode: total on arbitrary bytes (no index/slice/nil error), keeps the shape.
+//@ func (r *DecodeResult) decode(data []byte) (err error)
+//@   requires flatOK(r)
+//@   ensures  flatOK(r)
+//@   noframe
+//@   loop 1: locals dec *csproto.Decoder
+//@   loop 1: invariant csproto.GocvDecOK(dec) && flatOK(r)
